@@ -208,7 +208,7 @@ def r5(ctx, F, hub):
     len_i = next((i for i in range(1, b.argc + 1) if b.local_ty(i) == 'u64'), None)
     consumers = []
     for cb, ct in fl.calls(lambda c: c in ('std::io::copy', 'std::io::Read::read', 'std::io::Read::read_exact', 'std::io::Read::read_to_end')):
-        so = fl.origins(ct['args'][0])
+        so = reader_sources(fl, ct['args'][0])
         for o in so:
             if o.kind == 'call' and o.key == 'std::io::Read::take':
                 lo = call_arg_origins(fl, o.bb, 1)
@@ -226,7 +226,7 @@ def r5(ctx, F, hub):
     # direct input reads outside take(len)
     raw = []
     for cb, ct in fl.calls(lambda c: c.startswith('std::io::Read::') and c != 'std::io::Read::take'):
-        so = fl.origins(ct['args'][0])
+        so = reader_sources(fl, ct['args'][0])
         if not any(o.kind == 'call' and o.key == 'std::io::Read::take' for o in so):
             raw.append(cb)
     ctx.check(not raw, 'C12.R5', 'handle_put:no-unbounded-read', 'input is read only through take(len)', 'handle_put reads the input without the take(len) bound', term_loc(b, raw[0]) if raw else None)
@@ -242,6 +242,21 @@ def r5(ctx, F, hub):
                     reads_input = True
         ctx.check(not reads_input, 'C12.R5', '%s:consumes-nothing' % h.split('::')[-1], 'does not read the request stream',
                   '%s consumes bytes of the request stream beyond its frame' % h, loc(hb, hb.lo))
+
+
+READER_WRAPPERS = ('std::io::BufReader::<R>::new', 'std::io::BufReader::<R>::with_capacity', 'std::io::Read::by_ref', 'std::io::Read::chain')
+
+
+def reader_sources(fl, op, depth=0):
+    """origins of a reader operand, looking through buffering wrappers (`BufReader::with_capacity(n, r.take(len))` reads what
+    `r.take(len)` yields)"""
+    out = set()
+    for o in fl.origins(op):
+        if o.kind == 'call' and o.key in READER_WRAPPERS and o.bb is not None and depth < 4:
+            out |= reader_sources(fl, fl.body.blocks[o.bb]['term']['args'][-1], depth + 1)
+        else:
+            out.add(o)
+    return out
 
 
 def reply_kind(fl, wt):
